@@ -315,3 +315,22 @@ class XRInterp(Interp):
         super().__init__(mode="real", **kw)
         self.o = XROps()
         self.o.fold_transcendentals = kw.get("fold_transcendentals", False)
+
+
+def div_axioms(formulas):
+    """valid facts about the real quotients that occur in a query (help the linear solver with `probs >= 0`):
+    d > 0 and n >= 0  =>  n/d >= 0 ;   d > 0 and 0 <= n <= d  =>  n/d <= 1"""
+    seen, out = set(), []
+    stack = [f for f in formulas if isinstance(f, z3.ExprRef)]
+    while stack:
+        t = stack.pop()
+        if t.get_id() in seen:
+            continue
+        seen.add(t.get_id())
+        if z3.is_app(t):
+            if z3.is_app_of(t, z3.Z3_OP_DIV) and not z3.is_rational_value(t.arg(1)):
+                n, d = t.arg(0), t.arg(1)
+                out.append(z3.Implies(z3.And(d > 0, n >= 0), t >= 0))
+                out.append(z3.Implies(z3.And(d > 0, n >= 0, n <= d), t <= 1))
+            stack.extend(t.children())
+    return out
